@@ -151,6 +151,10 @@ func (s *gsched) touch(obj interface{}) {
 func (s *gsched) finishBlock() {
 	b := s.curBlock
 	p := s.prevBlock
+	if s.w.h.SchedFirst {
+		s.prevBlock = b
+		return
+	}
 	if p != nil && p.gid != b.gid && b.gid < p.gid && p.enabled[b.gid] {
 		disjoint := true
 		for o := range b.fp {
@@ -170,7 +174,7 @@ func (s *gsched) finishBlock() {
 // choose picks the goroutine that runs the next block.
 func (s *gsched) choose(cands []*gor, kind string) *gor {
 	k := 0
-	if len(cands) > 1 {
+	if len(cands) > 1 && !s.w.h.SchedFirst {
 		k = s.w.decide(make([]T, len(cands)), false, "sched:"+kind)
 	}
 	en := map[int]bool{}
@@ -487,7 +491,7 @@ func (s *gsched) selectStmt(w *Worker, fr *frame, instr *ssa.Select) value {
 			continue
 		}
 		k := 0
-		if len(r) > 1 {
+		if len(r) > 1 && !w.h.SchedFirst {
 			k = w.decide(make([]T, len(r)), false, "select")
 		}
 		i := r[k]
